@@ -138,6 +138,57 @@ func (sc *bscenario) directed(r *hx.Rng, row *storedRow) string {
 	return s
 }
 
+// storedOf: a stored row of one of the measurements, or nil.
+func (sc *bscenario) storedOf(r *hx.Rng, names []string) *storedRow {
+	var cand []*storedRow
+	for _, row := range sc.stored {
+		for _, n := range names {
+			if row.mst == n {
+				cand = append(cand, row)
+			}
+		}
+	}
+	if len(cand) == 0 {
+		return nil
+	}
+	return cand[r.Intn(len(cand))]
+}
+
+// renameFor: (from, to, value) such that `from AS to` turns the row's tag `from` into a shard-key
+// tag `to` of its measurement (for the row's group) with a value other than the row's own `to`.
+func (sc *bscenario) renameFor(r *hx.Rng, row *storedRow) (string, string, string) {
+	mi, err := sc.data.Measurement(dbName, rpName, row.mst)
+	if err != nil {
+		return "", "", ""
+	}
+	var g *meta.ShardGroupInfo
+	for j := range sc.rpi.ShardGroups {
+		if sc.rpi.ShardGroups[j].ID == row.gid {
+			g = &sc.rpi.ShardGroups[j]
+		}
+	}
+	if g == nil {
+		return "", "", ""
+	}
+	ski := sc.skiFor(mi, g)
+	if ski == nil || len(ski.ShardKey) == 0 {
+		return "", "", ""
+	}
+	to := ski.ShardKey[r.Intn(len(ski.ShardKey))]
+	own := ""
+	for _, t := range row.tags {
+		if t.Key == to {
+			own = t.Value
+		}
+	}
+	for _, t := range row.tags {
+		if t.Key != to && t.Key != "zone" && t.Value != own && !strings.ContainsAny(t.Value, "'\\") {
+			return t.Key, to, t.Value
+		}
+	}
+	return "", "", ""
+}
+
 func (sc *bscenario) runMapQuery(c *hx.Ctx, r *hx.Rng) {
 	shim := &scenario{tags: sc.tags, key: sc.tags[:1], times: sc.times}
 	genText := func() string {
@@ -204,6 +255,18 @@ func (sc *bscenario) runMapQuery(c *hx.Ctx, r *hx.Rng) {
 				two[0], two[1] = two[1], two[0]
 			}
 			aliasFrom, aliasTo = two[0], two[1]
+			// directed: rename another tag of a stored row INTO a shard-key tag of its measurement and
+			// ask the outer query for the renamed value
+			if row := sc.storedOf(r, names); row != nil && r.Chance(70) {
+				if from, to, v := sc.renameFor(r, row); to != "" {
+					aliasFrom, aliasTo = from, to
+					outerText = to + " = " + quote(v)
+					if r.Chance(30) {
+						outerText += " AND value >= 0"
+					}
+					c.Count("mapq:subquery-rename-directed")
+				}
+			}
 			sel = "value, " + aliasFrom + " AS " + aliasTo
 			c.Count("mapq:subquery-renames-a-tag")
 		}
